@@ -287,6 +287,7 @@ def lib_chain(ip, st, pos, kws):
             return ip.ite_sv(CMP("<", i, end), views[k].get(SUB(i, off)), pick(k + 1, end))
         return pick(0, I(0))
     src = View(total, get) if views else ip.items_view([])
+    src.chain_parts = views          # (lib_graph.zip_concrete: the chained sequences, when all of concrete length)
     return [(st, ip.new_cell(st, IterCell(src, I(0))))]
 
 
